@@ -586,7 +586,7 @@ theorem step_inv {L : Nat → Nat} {st : Node} (h : Inv L st) {op : Op} (hop : O
     by_cases hc : containsAll st.book (v, v) (some seqs) = true
     · simp only [opPartial, hc, if_true]; exact h
     · by_cases hi : seqs.2 < seqs.1
-      · simp only [opPartial, hc, hi, if_true, if_false]; exact h
+      · simp only [opPartial, hc, hi, if_true]; exact h
       · obtain ⟨b', mg, e1, e2, e3, _⟩ := opPartial_inv h (seqs := seqs) hv (by omega)
         simp only [opPartial, hc, hi, if_false, e2, e1]; exact e3
   | reload =>
